@@ -13,7 +13,9 @@ CFG = {'assumptions': ['f64 inputs cross the boundary as bit patterns and are de
                  'pop/sift_down_to_bottom) for the pinned toolchain; the proved theorems do not depend on which '
                  'minimal entry is popped first'],
  'count': {'quick': 150000, 'thorough': 5000000},
- 'lean_files': ['GeoModel/Simplify.lean', 'GeoModel/Ops/C09.lean', 'GeoProofs/Lemmas/C09Rdp.lean', 'GeoProofs/Lemmas/C09Vw.lean'],
+ 'lean_files': ['GeoModel/Simplify.lean', 'GeoModel/Ops/C09.lean', 'GeoProofs/Lemmas/C09Rdp.lean', 'GeoProofs/Lemmas/C09Vw.lean',
+                'GeoProofs/Lemmas/C09PHeap.lean', 'GeoProofs/Lemmas/C09PExit.lean',
+                'GeoProofs/Lemmas/C09PExitP.lean'],
  'rule': 'random LineString / MultiLineString / Polygon / MultiPolygon (0-28 vertices per component; random grid '
          'points, zig-zags, collinear runs with bumps, back-tracking walks, forced repeats, wide 2^20 coordinates; '
          'closed line strings; rings at the 4-coordinate limit, open rings closed by the constructor) x '
@@ -41,9 +43,18 @@ MANIFEST = {'note': 'Trusted: Lean 4.33 kernel (axioms propext, Classical.choice
          'variants agree, eps <= 0 is the identity (first/last via the doubly-linked-list invariant of the adjacency '
          'vector, for every order in which equal-area entries are popped); simplify_vw_preserve outputs are '
          'subsequences keeping both ends and never fall below INITIAL_MIN coordinates (counter = number of live '
-         'vertices), so rings stay closed with at least four coordinates. Not proved: the exit invariant of '
-         'simplify_vw (every remaining interior vertex has area > eps) - it is checked on every implementation '
-         'output by the Lean checker instead. The model (state-passing compute_rdp, the adjacency list, a '
+         'vertices), so rings stay closed with at least four coordinates. The BinaryHeap mirror is proved correct: '
+         'from/rebuild establishes the heap order (every parent area <= its children), push and pop preserve it, '
+         'from/push/pop only permute/add/remove entries (List.Perm), and pop returns an entry of minimal area '
+         '(heap_from_inv, heap_push_inv, heap_pop_min). With it the exit invariant of simplify_vw is proved '
+         '(vw_exit_invariant, vw_exit_invariant_idx, vw_exit_invariant_simplify_idx, vw_exit_invariant_checker): loop invariant every live vertex '
+         'with two proper neighbours has its current triangle in the queue, so at exit every three consecutive retained '
+         'vertices span a triangle of exact area > eps; the Lean checker also evaluates it on every implementation '
+         'output. The analogous statement holds for simplify_vw_preserve (vwp_exit_invariant): when its output has more '
+         'than INITIAL_MIN and more than MIN_POINTS coordinates (otherwise the loop may have stopped on one of its two '
+         'size rules) every three consecutive retained vertices span a triangle of area > eps, entries demoted to -eps '
+         'included. '
+         'The model (state-passing compute_rdp, the adjacency list, a '
          'mirrored BinaryHeap, the segment multiset standing for the R-tree) is compared exactly (vertex lists and '
          "index lists) with the real API on random inputs; the property clauses are also evaluated on the "
          "implementation's own outputs."}
